@@ -65,7 +65,7 @@ def builtin_mro(name):
 
 def class_flags(cls):
     return dict(exc=issubclass(cls, Exception), sysexit=issubclass(cls, SystemExit),
-                keyerr=issubclass(cls, KeyError))
+                keyerr=cls is KeyError)      # exactly builtins.KeyError (a student subclass keeps its class)
 
 
 def builtin_exception_classes():
@@ -88,7 +88,7 @@ BUILTIN_EXCS = builtin_exception_classes()
 SYNTAX_FAMILY = ("SyntaxError", "IndentationError", "TabError")
 USER_NAMES = ["MyError", "Oops", "CustomFailure", "BadThing", "E1", "StudentProblem"]
 USER_BASES = [
-    ("Exception", dict(exc=True)), ("ValueError", dict(exc=True)), ("KeyError", dict(exc=True, keyerr=True)),
+    ("Exception", dict(exc=True)), ("ValueError", dict(exc=True)), ("KeyError", dict(exc=True)),   # a USER class derived from KeyError is reported as itself
     ("LookupError", dict(exc=True)), ("OSError", dict(exc=True)), ("ArithmeticError", dict(exc=True)),
     ("BaseException", dict(exc=False)), ("KeyboardInterrupt", dict(exc=False)),
     ("GeneratorExit", dict(exc=False)), ("SystemExit", dict(exc=False, sysexit=True)),
